@@ -4,6 +4,7 @@
 import TwProofs.Lemmas.PlainText
 import TwProofs.Lemmas.TextPieces
 import TwProofs.Lemmas.TextRuns
+import TwProofs.Lemmas.TextVars
 
 namespace Tw.C05
 open Tw
@@ -74,6 +75,40 @@ theorem text_and_comments_tokens (items : List Item) (hok : ItemsOK items) :
     ∃ toks e, tokenize (itemsSrc items) = some { toks := toks ++ [e], insideCode := false, panicked := false } ∧
       toks.map (·.lit) = itemsLits items ∧ (∀ t ∈ toks, t.ty = .HTML) ∧ e.ty = .EOF :=
   tokenize_items items hok
+
+/-- **text around code, from the source bytes to the output** — templates of text runs (with any
+    number of escaped "{{" and escaped directives), comments and `{{ name }}` blocks with any
+    white space around the name: every byte of text appears unchanged and in order, the escaping
+    backslashes are gone, the comments leave nothing, and each block is replaced by the printed
+    value of its name.  The whole pipeline — lexer, parser, evaluator — for every such template
+    and every data map that binds the printed names. -/
+theorem text_comments_and_variables_render (custom : List ((VType × Bytes) × Nat)) (items : List VItem) (hok : VItemsOK items)
+    (hsize : (vpieces items).length + 3 ≤ evalFuel)
+    (data : List (Bytes × GoVal)) (env : Env) (henv : envFromMap data = .ok env) (hb : holesBound env (vpieces items)) :
+    evaluateStringPure custom (vitemsSrc items) data = .ok (fill env (vpieces items)) :=
+  vitems_render custom items hok hsize data env henv hb
+
+/-- its token list: text tokens, and LBRACES IDENT RBRACES for every block whatever the spacing -/
+theorem text_comments_and_variables_tokens (items : List VItem) (hok : VItemsOK items) :
+    ∃ toks e, tokenize (vitemsSrc items) = some { toks := toks ++ [e], insideCode := false, panicked := false } ∧
+      toks.map key = vkeys items ∧ e.ty = .EOF :=
+  tokenize_vitems items hok
+
+section example_vars
+private def exItems : List VItem := [.text [.plain (b "Hi ")], .print (b " ") (b "name") (b " "), .text [.plain (b "!")], .comment (b " c "),
+  .text [.plain (b " "), .esc 123, .plain (b "{ x }} ")], .print [] (b "n") [], .print (b "\n\t") (b "name") (b "\n")]
+private def exEnv : Env := [[(b "n", .int 3), (b "name", .str (b "Ann"))]]
+private def exData : List (Bytes × GoVal) := [(b "name", .str (b "Ann")), (b "n", .int 3)]
+
+/-- `Hi {{ name }}!{{-- c --}} \{{ x }} {{n}}{{\n\tname\n}}` with name = "Ann", n = 3: the hypotheses of
+    the theorem hold, and its conclusion is the render `Hi Ann! {{ x }} 3Ann` -/
+example : evaluateStringPure [] (b "Hi {{ name }}!{{-- c --}} \\{{ x }} {{n}}{{\n\tname\n}}") exData = .ok (b "Hi Ann! {{ x }} 3Ann") := by
+  have h := text_comments_and_variables_render [] exItems (by decide) (by decide) exData exEnv (by rfl) (by decide)
+  have h1 : vitemsSrc exItems = b "Hi {{ name }}!{{-- c --}} \\{{ x }} {{n}}{{\n\tname\n}}" := by decide
+  have h2 : fill exEnv (vpieces exItems) = b "Hi Ann! {{ x }} 3Ann" := by decide
+  rw [h1, h2] at h
+  exact h
+end example_vars
 
 /-! non-vacuity -/
 
